@@ -182,3 +182,257 @@ PROPS = {
             "nontrivial": lambda c: bool({"neq", "disunify"} & vlib.goal_tags(c)),
             "assumptions": ["TLC, Json/IOUtils, harness projectors; the User trait is the library's own extension interface"]},
 }
+
+
+# ----------------------------------------------------------------------------- search engine
+
+SEARCH_INVS = ["NoInvention", "DfsPrefix", "Complete", "Terminates", "EmitCase"]
+R_ORDER = {"wrong_order"}
+R_GROUP = {"group_bags_differ", "group_sequences_differ", "group_union_differs"}
+
+
+def search_mc(ctx, name, scope, dfs, fuel=400):
+    return mc(ctx, name, "MC_Search", {"Dfs": "TRUE" if dfs else "FALSE", "Fuel": str(fuel), "Tag": '"%s"' % name},
+              SEARCH_INVS, {"Scope": scope})
+
+
+def solver_cases(ctx, res, prefix, ordered=False):
+    out = []
+    for n, c in enumerate(res["cases"]):
+        case = {"id": "%s-%s-%d" % (ctx["prop"], prefix, n), "kind": "program", "mode": "solver", "goal": c["goal"],
+                "budget": 20 * c["ticks"] + 1000, "after": 3}
+        if c["phase"] == "exhausted":
+            case["ticks"] = c["ticks"]
+        if ordered:
+            case["ordered"] = True
+        out.append(case)
+    return out
+
+
+def query(ctx, cid, nq, body, **kw):
+    c = {"id": cid, "kind": "program", "mode": "query", "qvars": list(range(1, nq + 1)), "body": body,
+         "budget": 400000, "after": 2}
+    c.update(kw)
+    return c
+
+
+def plan_c05(ctx):
+    r = search_mc(ctx, "dfs", T(ctx, "DfsSmall", "DfsFull"), True)
+    add(ctx, solver_cases(ctx, r, "d", ordered=True))
+    r = search_mc(ctx, "mixed", "Mixed", False)
+    add(ctx, solver_cases(ctx, r, "m"))
+    rng = ctx["rng"]
+    for i in range(T(ctx, 400, 8000)):
+        nq = rng.randint(1, 2)
+        body = gen.search_program(rng, nq, rng.randint(2, 6), dfs=True)
+        add(ctx, [query(ctx, "C05-r-%d" % i, nq, [["dfs", [body]]], ordered=True)])
+    # dfs { } embedded under a BFS parent: the embedded block keeps its own order
+    for i in range(T(ctx, 100, 2000)):
+        nq = rng.randint(1, 2)
+        inner = gen.search_program(rng, nq, rng.randint(2, 4), dfs=True)
+        add(ctx, [query(ctx, "C05-e-%d" % i, nq, [["dfs", [inner]], ["eq", ["var", 1], ["var", 1]]], ordered=True)])
+
+
+def plan_c06(ctx):
+    r = search_mc(ctx, "bfs", T(ctx, "BfsSmall", "B2"), False)
+    add(ctx, solver_cases(ctx, r, "b"))
+    rng = ctx["rng"]
+    n = T(ctx, 300, 6000)
+    for i in range(n):
+        nq = rng.randint(1, 2)
+        st = rng.getstate()
+        body = gen.search_program(rng, nq, rng.randint(2, 6), dfs=False)
+        rng.setstate(st)
+        dbody = gen.search_program(rng, nq, 0, dfs=True) if False else None
+        # the same program three ways: as written, inside dfs { } (cond for conde), raw Conj nesting
+        rng.setstate(st)
+        body_d = gen.search_program(rng, nq, rng.randint(2, 6), dfs=True)
+        g = "C06-g%d" % i
+        add(ctx, [query(ctx, g + "-a", nq, body, group=g),
+                  query(ctx, g + "-b", nq, [["dfs", [body_d]]], group=g),
+                  query(ctx, g + "-c", nq, [raw_conj(body)], group=g, gcheck="same_bag")])
+    # infinite answer streams: every answer of a bounded prefix is an answer
+    for i in range(T(ctx, 60, 1200)):
+        nq = 1
+        k = rng.randint(1, 3)
+        prod = ["loop", [[["conde", [[["eq", ["var", 1], ["num", j]]] for j in range(k)]]]]]
+        pre = gen.search_program(rng, nq, rng.randint(0, 2), lib=False)
+        add(ctx, [query(ctx, "C06-inf-%d" % i, nq, pre + [prod], take=rng.randint(3, 12), fuel=14)])
+        add(ctx, [query(ctx, "C06-infm-%d" % i, 2, [["call", "member", [["num", 1], ["var", 1]]],
+                                                    ["call", "append", [["var", 2], ["list", [["num", 2]]], ["var", 1]]]][:rng.randint(1, 2)],
+                        take=rng.randint(2, 5), fuel=9)])
+
+
+def raw_conj(goals):
+    if not goals:
+        return ["succeed"]
+    g = goals[-1]
+    for x in reversed(goals[:-1]):
+        g = ["rawconj", x, g]
+    return g
+
+
+def plan_c08(ctx):
+    r = search_mc(ctx, "commit", "CommitScope", False)
+    add(ctx, solver_cases(ctx, r, "c"))
+    rng = ctx["rng"]
+    for i in range(T(ctx, 300, 6000)):
+        nq = rng.randint(1, 2)
+        op = rng.choice(["conda", "condu", "onceo"])
+        ncl = 1 if op == "onceo" else rng.randint(1, 3)
+        cls = []
+        for _ in range(ncl):
+            head = gen.search_program(rng, nq, rng.randint(1, 3), lib=True)
+            if len(head) != 1:
+                head = [["conj", head]]
+            rest = gen.search_program(rng, nq, rng.randint(0, 2), lib=True)
+            cls.append(head + rest)
+        pre = gen.search_program(rng, nq, rng.randint(0, 2), lib=True)
+        post = gen.search_program(rng, nq, rng.randint(0, 1), lib=False)
+        add(ctx, [query(ctx, "C08-r-%d" % i, nq, pre + [[op, cls]] + post)])
+    # heads with infinitely many answers: condu / onceo still commit to the first one
+    for i in range(T(ctx, 40, 800)):
+        head = rng.choice([["always"], ["loop", [[["conde", [[["eq", ["var", 1], ["num", 1]]], [["eq", ["var", 1], ["num", 2]]]]]]]],
+                           ["call", "member", [["num", 1], ["var", 1]]]])
+        op = rng.choice(["condu", "onceo"])
+        cl = [head] + ([] if op == "onceo" else gen.search_program(rng, 1, rng.randint(0, 1), lib=False))
+        add(ctx, [query(ctx, "C08-inf-%d" % i, 1, [[op, [cl]]], fuel=8)])
+
+
+ISO_GOALS = None
+
+
+def iso_goal(rng, tg):
+    r = rng.random()
+    if r < 0.3:
+        return gen.tree_goal(tg, 1, p_neq=0.0)
+    if r < 0.55:
+        return gen.tree_goal(tg, 1, p_neq=1.0)
+    if r < 0.75:
+        return ["leaf", "t%d" % rng.randint(1, 3)]
+    if r < 0.9:
+        return gen.lib_goal(rng, tg)
+    return ["project", [1], [["show", ["var", 1]]]]
+
+
+def plan_c10(ctx):
+    rng = ctx["rng"]
+    for i in range(T(ctx, 350, 7000)):
+        nq = rng.randint(1, 3)
+        tg = gen.TermGen(rng, range(1, nq + 1), compounds=False, syms=False, nums=[1, 2, 3])
+        prefix = [iso_goal(rng, tg) for _ in range(rng.randint(0, 3))]
+        prefix = [g for g in prefix if g[0] != "project" or True]
+        A = [iso_goal(rng, tg) for _ in range(rng.randint(1, 3))]
+        B = [iso_goal(rng, tg) for _ in range(rng.randint(1, 3))]
+        post = [iso_goal(rng, tg) for _ in range(rng.randint(0, 1))]
+        g = "C10-g%d" % i
+        add(ctx, [query(ctx, g + "-ab", nq, prefix + [["conde", [A, B]]] + post, group=g),
+                  query(ctx, g + "-a", nq, prefix + A + post, group=g),
+                  query(ctx, g + "-b", nq, prefix + B + post, group=g, gcheck="union"),
+                  query(ctx, g + "-ba", nq, prefix + [["conde", [B, A]]] + post)])
+
+
+def plan_c11(ctx):
+    rng = ctx["rng"]
+    vals_pool = [["num", 1], ["num", 2], ["list", [["num", 3]]], ["sym", "s:a"], ["var", 2], ["cmp", "Pair", [["num", 1], ["var", 2]]]]
+
+    def body_of():
+        body = [rng.choice([["show", ["var", 1]], ["isnum", ["var", 1]]]) for _ in range(rng.randint(1, 2))]
+        if rng.random() < 0.5:
+            body.append(["eq", ["var", 2], ["var", 1]])
+        return body
+
+    for i in range(T(ctx, 400, 8000)):
+        k = rng.choice([1, 1, 2, 3, 4])
+        vals = [rng.choice(vals_pool) for _ in range(k)]
+        how = rng.choice(["member", "conde", "loop", "each"])
+        take = 1000
+        if how == "each":
+            # one project goal PER branch (each has its own projection cell)
+            body = [["conde", [[["eq", ["var", 1], v], ["project", [1], body_of()]] for v in vals]]]
+        else:
+            if how == "member":
+                pre = [["call", "member", [["var", 1], ["list", vals]]]]
+            elif how == "conde":
+                pre = [["conde", [[["eq", ["var", 1], v]] for v in vals]]]
+            else:
+                pre = [["loop", [[["conde", [[["eq", ["var", 1], v]] for v in vals]]]]]]
+                take = rng.randint(2, 6)
+            body = pre + [["project", [1], body_of()]]
+        add(ctx, [query(ctx, "C11-r-%d" % i, 2, body, take=take, fuel=10)])
+
+
+def plan_c12(ctx):
+    rng = ctx["rng"]
+    for i in range(T(ctx, 300, 6000)):
+        nq = rng.randint(1, 3)
+        tg = gen.TermGen(rng, range(1, nq + 1), compounds=False, syms=False, nums=[1, 2, 3])
+        coll = [tg.atom() for _ in range(rng.randint(0, 3))]
+        x = 50
+        bodies = []
+        for _ in range(rng.randint(1, 2)):
+            r = rng.random()
+            if r < 0.4:
+                bodies.append([["call", "member", [["var", x], gen.small_list(rng, gen.TermGen(rng, [], compounds=False, syms=False, nums=[1, 2, 3]))]]])
+            elif r < 0.7:
+                bodies.append([["neq", ["var", x], ["num", rng.randint(1, 3)]]])
+            else:
+                bodies.append([["conde", [[["eq", ["var", x], ["num", 1]]], [["eq", ["var", x], ["num", 2]]]]]])
+        pre = gen.search_program(rng, nq, rng.randint(0, 2), lib=False)
+        explicit = []
+        for t in coll:
+            for cl in bodies:
+                explicit.extend(subst(cl, x, t))
+        g = "C12-g%d" % i
+        add(ctx, [query(ctx, g + "-for", nq, pre + [["for", x, coll, bodies]], group=g),
+                  query(ctx, g + "-conj", nq, pre + explicit, group=g, gcheck="same_bag")])
+
+
+def subst(x, vid, t):
+    if isinstance(x, list):
+        if len(x) == 2 and x[0] == "var" and x[1] == vid:
+            return t
+        return [subst(y, vid, t) for y in x]
+    return x
+
+
+SEARCH_ASSUME = ["goal trees of bounded depth over trail leaves (flow A scopes in spec/MC_Search.tla), bounded unfolding "
+                 "fuel for recursive relations", "TLC, Json/IOUtils, harness projectors"]
+PROPS.update({
+    "C05": {"plan": plan_c05, "reasons": R_ANSWERS | R_ORDER,
+            "rule": "exhaustive: every DFS goal tree of MC_Search.DfsSmall/DfsFull (dfs{} around conj/cond/fresh/raw "
+                    "DFSConj/DFSDisj over leaves a, b, fail, succeed) and dfs{} embedded in BFS parents; random: "
+                    "programs with cond, fresh, eq/neq, member/append/rember inside dfs{}, compared position by position. "
+                    "Non-trivial: the program has a disjunction (cond/rawdisj/call).",
+            "nontrivial": lambda c: bool({"cond", "rawdisj", "call", "disj"} & vlib.goal_tags(c)),
+            "assumptions": SEARCH_ASSUME},
+    "C06": {"plan": plan_c06, "reasons": R_ANSWERS | {"group_bags_differ"},
+            "rule": "exhaustive: every BFS goal tree of MC_Search.BfsSmall/B2; random: each program three ways (as written, "
+                    "inside dfs{}, raw Conj nesting) judged against the reference and against each other; infinite "
+                    "producers with a bounded prefix.  Non-trivial: has a disjunction.",
+            "nontrivial": lambda c: bool({"conde", "cond", "rawdisj", "call", "disj", "loop"} & vlib.goal_tags(c)),
+            "assumptions": SEARCH_ASSUME},
+    "C08": {"plan": plan_c08, "reasons": R_ANSWERS,
+            "rule": "exhaustive: MC_Search.CommitScope (conda/condu with 1-2 clauses, heads with 0/1/several answers, "
+                    "immediate or lazily produced, rests with 0/1/2 answers, nested under conde/conj; onceo); random: "
+                    "conda/condu/onceo around library-relation programs; infinite heads for condu/onceo.",
+            "nontrivial": lambda c: bool({"conda", "condu", "onceo"} & vlib.goal_tags(c)),
+            "assumptions": SEARCH_ASSUME + ["'first answer in engine order' of a condu/onceo head is taken from the engine "
+                                            "model of Search.tla (checked to be an answer of the head)"]},
+    "C10": {"plan": plan_c10, "reasons": R_ANSWERS | {"group_union_differs"},
+            "rule": "random prefix / branch A / branch B / suffix from bindings, disequalities, user-trail leaves, library "
+                    "relations and project; conde{A,B}, A alone, B alone (multiset union judged implementation against "
+                    "implementation) and conde{B,A}, each also against the reference.",
+            "nontrivial": lambda c: "conde" in vlib.goal_tags(c),
+            "assumptions": SEARCH_ASSUME},
+    "C11": {"plan": plan_c11, "reasons": R_ANSWERS | {"panic"},
+            "rule": "1-4 states (member / conde / loop) reach a project goal whose body uses the projected value "
+                    "non-relationally (show, isnum) in one or two goals.  Non-trivial: more than one state reaches it.",
+            "nontrivial": lambda c: True,
+            "assumptions": SEARCH_ASSUME},
+    "C12": {"plan": plan_c12, "reasons": R_ANSWERS | {"group_bags_differ"},
+            "rule": "collections of 0-3 terms (ground, variables shared with the query) and 1-2 body clauses over the loop "
+                    "variable; for{} next to its explicit conjunction.",
+            "nontrivial": lambda c: "for" in vlib.goal_tags(c),
+            "assumptions": SEARCH_ASSUME},
+})
